@@ -39,6 +39,7 @@ NUMV = ["va", "vb", "vc", "vd", "ve", "vf", "averyveryverylongnamx", "averyveryv
 TNTV = ["ta", "tb"]
 STRV = ["sa$", "sb$", "sc$"]
 ARRS = [("qa", [6]), ("qb", [3, 4])]
+SARRS = [("sq$", [6]), ("sr$", [3, 3])]          # string arrays
 LOOPV = ["ii", "jj", "kk"]
 SUBV = ["ma", "mb"]
 PREC = {"OR": 0, "XOR": 0, "AND": 1, "=": 2, "<": 2, ">": 2, "<=": 2, ">=": 2, "<>": 2, "+": 3, "-": 3, "*": 4, "/": 4, "MOD": 4, "^": 5}
@@ -193,10 +194,17 @@ class Gen:
         q = '"' if r.random() < 0.8 else "'"
         return ("s", q + s + q)
 
+    def selem(self, ctx, arr=None):
+        """element of a string array"""
+        a, dims = arr or self.r.choice(SARRS)
+        return ("raw", "%s(%s)" % (a, ", ".join(self.index(d, ctx) for d in dims)), 6)
+
     def sexpr(self, depth, ctx):
         r = self.r
         k = r.random()
         if depth <= 0 or k < 0.35:
+            if r.random() < 0.3:
+                return self.selem(ctx)
             return self.strlit() if r.random() < 0.6 else ("v", r.choice(STRV))
         if k < 0.55:
             return ("b", "+", self.sexpr(depth - 1, ctx), self.sexpr(depth - 1, ctx))
@@ -308,9 +316,26 @@ class Gen:
             return "%s%s = %s" % (let, v, self.pr(self.cexpr(r.randint(1, 4), ctx), 0))
         if k < 0.40:
             a, dims = r.choice(ARRS)
-            return "%s(%s) = %s" % (a, ", ".join(self.index(d, ctx) for d in dims), self.pr(self.cexpr(2, ctx), 0))
-        if k < 0.50:
+            rhs = self.cexpr(2, ctx)
+            if r.random() < 0.4:      # right-hand side reads other elements of the same array
+                other = ("raw", "%s(%s)" % (a, ", ".join(self.index(d, ctx) for d in dims)), 6)
+                rhs = ("b", r.choice(["+", "-", "*"]), other, rhs) if r.random() < 0.5 else ("b", "+", rhs, other)
+            return "%s(%s) = %s" % (a, ", ".join(self.index(d, ctx) for d in dims), self.pr(rhs, 0))
+        if k < 0.45:
             return "%s = %s" % (r.choice(STRV), self.pr(self.sexpr(2, ctx), 0))
+        if k < 0.50:
+            # element of a string array; half of the time the right-hand side reads OTHER elements of the same array
+            # (the target slot must be the one addressed on the left, whatever the right-hand side touches)
+            self.feat.add("string_array")
+            arr = r.choice(SARRS)
+            rhs = self.sexpr(2, ctx)
+            if r.random() < 0.6:
+                parts = [self.selem(ctx, arr) for _ in range(r.randint(1, 2))] + [rhs]
+                r.shuffle(parts)
+                rhs = parts[0]
+                for q in parts[1:]:
+                    rhs = ("b", "+", rhs, q)
+            return "%s = %s" % (self.selem(ctx, arr)[1], self.pr(rhs, 0))
         if k < 0.56 and not ctx.get("sub"):
             return "%s = %s" % (r.choice(TNTV), self.pr(self.texpr(1, ctx), 0))
         if k < 0.62:
@@ -438,6 +463,30 @@ class Gen:
                     self.emit("GOTO @L%d@" % end)
                 self.emit("REM end on", end)
                 n -= 2 * m + 2
+            elif k < 0.925 and not ctx.get("sub") and len(ctx.get("loopvars", [])) < len(LOOPV):
+                # shift loop: every element is assigned from its neighbour in the same array
+                self.feat.add("shift_loop")
+                v = LOOPV[len(ctx.get("loopvars", []))]
+                kind = r.random()
+                if kind < 0.5:
+                    a, body = "sq$", "sq$(%s) = sq$(%s - 1)%s" % (v, v, r.choice(["", " + \"s\"", " + sq$(0)"]))
+                elif kind < 0.75:
+                    a, body = "qa", "qa(%s) = qa(%s - 1)%s" % (v, v, r.choice(["", " + 1", " * 2 + qa(0)"]))
+                else:
+                    a, body = "sr$", "sr$(%s, 1) = sr$(%s - 1, 2) + sr$(%s - 1, 1)" % (v, v, v)
+                hi = 5 if a != "sr$" else 2
+                if r.random() < 0.5:
+                    hdr = "FOR %s = %d TO 1 STEP -1" % (v, hi)
+                else:
+                    hdr = "FOR %s = 1 TO %d" % (v, hi)
+                if r.random() < 0.5:
+                    self.emit("%s : %s : NEXT %s" % (hdr, body, v))
+                    n -= 1
+                else:
+                    self.emit(hdr)
+                    self.emit(body)
+                    self.emit("NEXT %s" % v)
+                    n -= 3
             elif k < 0.95 and not ctx.get("sub") and not ctx.get("loopvars") and not ctx.get("wdepth") and not ctx.get("inbg"):
                 self.feat.add("backward_goto")
                 c = "cg"
@@ -453,7 +502,10 @@ class Gen:
                 kinds = [r.choice(["num", "num", "str"]) for _ in range(r.randint(1, 3))]
                 vs = []
                 for kd in kinds:
-                    vs.append(r.choice(NUMV) if kd == "num" else r.choice(STRV))
+                    if r.random() < 0.2:
+                        vs.append("qa(%d)" % r.randint(0, 5) if kd == "num" else "sq$(%d)" % r.randint(0, 5))
+                    else:
+                        vs.append(r.choice(NUMV) if kd == "num" else r.choice(STRV))
                     self.data.append(("num", self.pr(self.cexpr(1, {"novar": True}), 0)) if kd == "num" else ("str", self.strlit()[1]))
                 if r.random() < 0.1:
                     self.emit("RESTORE")
@@ -467,7 +519,7 @@ class Gen:
     def program(self):
         r = self.r
         ctx = {"allow_bad": r.random() < 0.03}
-        self.emit("DIM " + ", ".join("%s(%s)" % (a, ", ".join(str(d - 1) for d in dims)) for a, dims in ARRS))
+        self.emit("DIM " + ", ".join("%s(%s)" % (a, ", ".join(str(d - 1) for d in dims)) for a, dims in ARRS + SARRS))
         if r.random() < 0.5:
             self.emit("REM generated program ' with \" quotes : and colons")
         self.block(self.size, 0, ctx)
@@ -561,6 +613,14 @@ def _relation_matrix():
 
 
 CORPUS.append(_relation_matrix())
+# assignment target is fixed before the right-hand side is evaluated, even when the right-hand side reads the same array
+CORPUS.append(["10 DIM a$(3), t$(4), n(4), m$(2, 2)", "20 a$(1) = \"ab\"", "30 a$(2) = a$(1) + \"cd\"", "40 a$(3) = a$(2) + a$(1)",
+               "50 PUNCH a$(1), a$(2), a$(3), LEN(a$(3))", "60 t$(0) = \"w\" : t$(1) = \"x\" : t$(2) = \"y\" : t$(3) = \"z\"",
+               "70 FOR i = 3 TO 1 STEP -1 : t$(i) = t$(i - 1) : NEXT i", "80 PUNCH t$(0), t$(1), t$(2), t$(3)",
+               "90 FOR i = 0 TO 4 : n(i) = i + 1 : NEXT i", "100 FOR i = 4 TO 1 STEP -1 : n(i) = n(i - 1) * 10 + n(i) : NEXT i",
+               "110 PUNCH n(0), n(1), n(2), n(3), n(4)", "120 n(n(0)) = n(n(0) + 1) + n(0) : PUNCH n(1), n(2)",
+               "130 m$(1, 1) = \"p\" : m$(2, 2) = m$(1, 1) + m$(0, 0) + \"q\" : m$(0, 1) = m$(2, 2) + m$(1, 1) : PUNCH m$(1, 1), m$(2, 2), m$(0, 1), m$(0, 0) + \"|\"",
+               "140 DATA \"r\", 7", "150 READ a$(0), n(2) : a$(0) = a$(0) + a$(1) : PUNCH a$(0), n(2), a$(1)"])
 
 MALFORMED_CORPUS = [
     ["10 PUNCH (1 + 2"], ["10 PUNCH 1 + 2)"], ["10 PUNCH \"abc"], ["10 PUNCH 1 2"], ["10 x = = 1"], ["10 IF 1 PUNCH 2"],
@@ -1034,7 +1094,7 @@ def run(ctx):
         ctx.extra["input_distribution"] = {"generated_programs": nprog, "features": feats,
                                            "lines_per_program": "4..40 main-block lines, every 25th program 120..200",
                                            "hosts": "every program as USER_PUNCH; 1/5 each also as CALCULATE_VALUES, RATES, USER_PRINT; every 2nd mutated"}
-        bad = reserved_words() & set(NUMV + TNTV + LOOPV + SUBV + ["w1", "w2", "cg", "ss", "o_", "n", "i"] + [a for a, _ in ARRS] + [s.lower() for s in STRV])
+        bad = reserved_words() & set(NUMV + TNTV + LOOPV + SUBV + ["w1", "w2", "cg", "ss", "o_", "n", "i"] + [a for a, _ in ARRS + SARRS] + [s.lower() for s in STRV])
         if bad:
             ctx.notes.append("generator variable names became keywords: %r" % sorted(bad))
 
